@@ -81,6 +81,7 @@ def h_single(ctx):
     apuv = ctx.deviate("apu/apv", [None, ("QWxpY2U", "Qm9i"), ("", "Qm9i")]) if alg.startswith("ECDH") else None
     placement = ctx.deviate("placement", ["protected", "alg-unprotected", "alg-recipient", "extras-everywhere"]) if form != "compact" else "protected"
     pname, plaintext = ctx.deviate("plaintext", plaintexts())
+    p2 = ctx.deviate("caller_p2s_p2c", [None, (None, 999), (None, 8), ("c2FsdHNhbHRzYWx0", 1000), ("c2FsdHNhbHRzYWx0", 4096), ("c2FsdA", None)]) if alg.startswith("PBES2") else None
     jwk = scen.key(kind)
     is_1pu = "1PU" in alg
     sender_jwk = scen.key(kind, 1) if is_1pu else None
@@ -103,6 +104,12 @@ def h_single(ctx):
         if apuv[0]:
             prot["apu"] = apuv[0]
         prot["apv"] = apuv[1]
+    if p2:
+        tgt = prot if form == "compact" or placement != "alg-recipient" else rhdr
+        if p2[0]:
+            tgt["p2s"] = p2[0]
+        if p2[1]:
+            tgt["p2c"] = p2[1]
     given = (copy.deepcopy(prot), copy.deepcopy(unprot), [copy.deepcopy(rhdr)], aad)
     pub = A.jkey(jwk, "dict", private=(jwk["kty"] == "oct"))
     priv = A.jkey(jwk, "dict")
@@ -111,7 +118,7 @@ def h_single(ctx):
     algs = [alg, enc, "DEF"]
     fam = alg.split("+")[0] if alg.startswith(("ECDH", "PBES2")) else (alg if not alg.endswith("GCMKW") else "GCMKW")
     tag = f"{fam} {ENC[enc][0]} {form}" + (" zip" if zipv else "")
-    ctxs = f"alg={alg} key={kind} enc={enc} zip={zipv} aad={aad} apu/apv={apuv} placement={placement} plaintext={pname}"
+    ctxs = f"alg={alg} key={kind} enc={enc} zip={zipv} aad={aad} apu/apv={apuv} p2s/p2c={p2} placement={placement} plaintext={pname}"
     r = scen.jwe_encrypt(form, prot, plaintext, pub, algs, unprotected=unprot, header=rhdr, aad=aad, sender_key=sender_priv)
     vs = []
     if forbidden:
@@ -129,7 +136,7 @@ def h_single(ctx):
             for k, v in given[0].items():
                 if d.value[1].get(k) != v:
                     vs.append(viol(f"protected header member lost or changed: {tag}", f"{ctxs}: {k}"))
-    return Outcome(f"{'ok' if not vs else 'bad'}:{fam}:{ENC[enc][0]}:{form}", vs, nontrivial=(alg, kind, enc, form, zipv, aad, apuv, placement, pname))
+    return Outcome(f"{'ok' if not vs else 'bad'}:{fam}:{ENC[enc][0]}:{form}", vs, nontrivial=(alg, kind, enc, form, zipv, aad, apuv, placement, pname, p2))
 
 
 MIX_KINDS = [("RSA-OAEP", "rsa"), ("A128KW", "oct16"), ("ECDH-ES+A128KW", "P-256"), ("A256GCMKW", "oct32"),
